@@ -112,9 +112,13 @@ pub fn new(parameters: &RawParameters, _ctx: &dyn Context) -> Result<Op, Error> 
 
     // We may use `ellps, da, df`, to parameterize the op, but `ellps_0, ellps_1`
     // is a more likely set of parameters to come across in real life.
-    if params.given.contains_key("ellps_0") && params.given.contains_key("ellps_1") {
+    // `ellps_0` and `ellps_1` are given either in the step itself or, for a step of a
+    // macro body, by the caller of the macro (the values are resolved in `params.text`)
+    let given =
+        |key: &str| params.given.contains_key(key) || parameters.globals.contains_key(key);
+    if given("ellps_0") && given("ellps_1") {
         // Then `ellps_0` is the ellipsoid we work on: the default value of `ellps`
-        // must not take precedence over it
+        // (which the context hands down to every step) must not take precedence over it
         if !params.given.contains_key("ellps") {
             let ellps_0 = params.text("ellps_0")?;
             params.text.insert("ellps", ellps_0);
